@@ -74,6 +74,24 @@ def cases(draw, tier="quick"):
             "randomize_action_order": draw(st.booleans())}
 
 
+def _large_case(t):
+    import random
+    spec, hk, seed, rao, margin = t
+    spec = dict(spec, explicit_states=None)
+    r = random.Random(seed)
+    return {"mdp": spec, "heuristic": {"kind": hk, "slack": [r.choice([0, 0, 0.05, 0.5, 1, 3]) for _ in range(spec["n"])],
+                                       "const_extra": r.choice([0, 0.5, 2])},
+            "margin": margin, "seed": seed % (10 ** 6), "randomize_action_order": rao}
+
+
+def large_cases(tier):
+    """16-45 states: long trials, deep check-solved recursions"""
+    from vpm.gen.mdp import large_mdp_specs
+    return st.tuples(st.one_of(large_mdp_specs("dproper", max_actions=3, max_out=3), large_mdp_specs("ssp", max_actions=3, max_out=3)),
+                     st.sampled_from(["const", "exact", "slack", "slack", "tie"]), st.integers(0, 2 ** 32), st.booleans(),
+                     st.sampled_from([1e-1, 1e-2, 1e-4])).map(_large_case)
+
+
 def prop_lrtdp(case, ctx):
     from msdm.algorithms.lrtdp import LRTDP, LRTDPEventListener
     spec = case["mdp"]
@@ -208,4 +226,6 @@ def prop_reuse(case, ctx):
 PROPS = [Prop("reuse", lambda tier: reuse_cases(tier), prop_reuse, quick=400, thorough=24000,
               doc="an LRTDP object reused on a second MDP gives the same result as a fresh one"),
          Prop("lrtdp", lambda tier: cases(tier), prop_lrtdp, quick=5000, thorough=300000,
-              doc="LRTDP termination, upper-bound invariant, margin bounds, absorbing-state conventions")]
+              doc="LRTDP termination, upper-bound invariant, margin bounds, absorbing-state conventions"),
+         Prop("lrtdp_large", large_cases, prop_lrtdp, quick=150, thorough=9000,
+              doc="the same on MDPs with 16-45 states (reference optimum by certified policy iteration)")]
